@@ -401,6 +401,44 @@ def check_body(p, v, ext, depth=0):
 _ITEM_NAME = re.compile(rb"[A-Za-z0-9.]+")
 
 
+_SECTION_HEAD = re.compile(rb"(?:(?P<part>[1-9][0-9]*(?:\.[1-9][0-9]*)*)(?:\.(?P<text1>[A-Za-z.]+))?|(?P<text2>[A-Za-z.]+))?")
+
+
+def _check_section(b, start, end):
+    """RFC 3501 `section-spec` between the brackets:
+    section-msgtext / (section-part ["." section-text]); the header list of
+    HEADER.FIELDS[.NOT] is "(" astring *(SP astring) ")"."""
+    body = bytes(b[start:end])
+    if body == b"":
+        return
+    m = _SECTION_HEAD.match(body)
+    word = (m.group("text1") or m.group("text2") or b"").upper()
+    rest = body[m.end():]
+    if m.end() == 0:
+        raise WireError("syntax", "malformed section spec", start, body[:60])
+    if word in (b"", b"HEADER", b"TEXT") or (word == b"MIME" and m.group("part")):
+        if rest:
+            raise WireError("syntax", "unexpected text after section spec", start + m.end(), body[:60])
+        return
+    if word not in (b"HEADER.FIELDS", b"HEADER.FIELDS.NOT"):
+        raise WireError("syntax", f"unknown section text {word!r}", start, body[:60])
+    q = _P(body + b"\r\n", m.end())
+    try:
+        q.sp()
+        q.lit(b"(")
+        q.astring()
+        while q.peek() == 0x20:
+            q.sp()
+            q.astring()
+        q.lit(b")")
+    except Incomplete:
+        raise WireError("syntax", "malformed header list in section spec", start, body[:80]) from None
+    except WireError as e:
+        raise WireError(e.rule, "header list in section spec: " + e.msg, start + q.i, body[:80]) from None
+    if q.i != len(body):
+        raise WireError("syntax", "unexpected text after header list in section spec", start + q.i, body[:80])
+
+
 def _fetch_items(p):
     """'(' item *(SP item) ')'  -> dict name -> value (names upper-cased;
     BODY[...] names keep the section text verbatim, upper-cased keyword)."""
@@ -440,6 +478,7 @@ def _fetch_items(p):
                     continue
                 j += 1
             section = p.b[p.i + 1 : j].decode("latin-1")
+            _check_section(p.b, p.i + 1, j)
             p.i = j + 1
             origin = None
             if p.peek() == 0x3C:
